@@ -47,6 +47,9 @@ function templates() {
   out.push(['nested|item.w', '<block wx:for="{{outer}}" wx:for-item="it" wx:for-index="oi"><v wx:for="{{it.inner}}" model:val="{{ item.w }}"/></block>'])
   out.push(['nested-keyed|item.w', '<block wx:for="{{outer}}" wx:key="k" wx:for-item="it" wx:for-index="oi"><v wx:for="{{it.inner}}" model:val="{{ item.w }}"/></block>'])
   out.push(['nested-rows|item', '<block wx:for="{{rows}}" wx:for-item="row"><v wx:for="{{row}}" model:val="{{ item }}"/></block>'])
+  // the same bindings on a child COMPONENT (its property val; the runtime keeps a listener per property there)
+  for (const e of ['a.b', 'c ? a.x : b.y', 'c ? a.b : 1 + 1', 'list[sel].v']) out.push([`component|${e}`, `<k model:val="{{ ${e} }}"/>`])
+  for (const [ln, la] of [['for-keyed', 'wx:for="{{list}}" wx:key="k"'], ['for-cond-literal', 'wx:for="{{ c ? prim : [7, 8] }}"']]) out.push([`component|${ln}|item`, `<block ${la}><k model:val="{{ ${ln === 'for-keyed' ? 'item.v' : 'item'} }}"/></block>`])
   // a model: binding inside a template definition: its path is relative to the data handed to the template
   out.push(['template-body|shorthand', '<template name="t"><v model:val="{{ sel }}"/></template><template is="t" data="{{ sel }}"/>'])
   out.push(['template-body|renamed', '<template name="t"><v model:val="{{ w }}"/></template><template is="t" data="{{ w: a.b }}"/>'])
@@ -106,11 +109,13 @@ function applyToInstance(comp, t) {
 function modelElements(node, out = []) {
   for (const n of node.childNodes || []) {
     if ((n.is === 'v' || n.tagName === 'v') && typeof n.getModelBindingListeners === 'function') out.push(n)
+    else if (n instanceof D.ge.Component && n.is === 'k') out.push(n)
     modelElements(n, out)
   }
   return out
 }
-const attrOf = (el, name) => { const a = (el.attributes || []).find((x) => x.name === name); return a ? a.value : undefined }
+const isComp = (el) => el instanceof D.ge.Component
+const attrOf = (el, name) => { if (isComp(el)) return el.data[name]; const a = (el.attributes || []).find((x) => x.name === name); return a ? a.value : undefined }
 
 /** run one history, then probe the listener of element number j; returns a problem text or null */
 function probe(bundle, mode, history, j) {
@@ -121,16 +126,25 @@ function probe(bundle, mode, history, j) {
   if (!el) return { done: true }
   const before = key(comp.data)
   const shown = attrOf(el, 'val')
-  const listener = el.getModelBindingListeners().val
-  if (!listener) return { count: els.length, listener: false }
-  try { listener(SENT) } catch (e) { return { count: els.length, problem: `the listener throws ${String(e).slice(0, 120)}` } }
+  if (isComp(el)) {
+    // a component reports a change of its property from inside: its own setData
+    try { el.setData({ val: SENT }) } catch (e) { return { count: els.length, problem: `setData of the child throws ${String(e).slice(0, 120)}` } }
+  } else {
+    const listener = el.getModelBindingListeners().val
+    if (!listener) return { count: els.length, listener: false }
+    try { listener(SENT) } catch (e) { return { count: els.length, problem: `the listener throws ${String(e).slice(0, 120)}` } }
+  }
   const after = key(comp.data)
   if (after === before) return { count: els.length, listener: true, wrote: false }
-  // the write changed the data: the binding of the same element (same position in the tree) must deliver the sentinel
+  // the write changed the host data: a FRESH instance created with the data as it is now must deliver the sentinel at the
+  // same element (get-put on the data, independent of how the running instance refreshes itself), and so must the running one
+  const fresh = D.create(bundle, MAIN, clone(comp.data), mode)
+  const elF = modelElements(fresh.shadowRoot)[j]
+  const nowF = elF ? attrOf(elF, 'val') : undefined
   const el2 = modelElements(comp.shadowRoot)[j]
   const now = el2 ? attrOf(el2, 'val') : undefined
-  if (now !== SENT) {
-    return { count: els.length, problem: `element #${j} showed ${JSON.stringify(shown)}; writing through its model listener changed the data to ${after.slice(0, 300)} and the binding now delivers ${JSON.stringify(now)}` }
+  if (nowF !== SENT || now !== SENT) {
+    return { count: els.length, problem: `element #${j} showed ${JSON.stringify(shown)}; a value change reported by it changed the host data to ${after.slice(0, 300)}; with that data the binding delivers ${JSON.stringify(nowF)} in a fresh instance and ${JSON.stringify(now)} in the running one` }
   }
   return { count: els.length, listener: true, wrote: true }
 }
@@ -173,7 +187,7 @@ function explore(cs, bundle, rep, thorough) {
 }
 
 function compileAll(list) {
-  const jobs = list.map(([, src], i) => ({ id: i, files: [[MAIN, src]], want: ['groups'] }))
+  const jobs = list.map(([, src], i) => ({ id: i, files: src.includes('<k ') ? [[MAIN, src], ['comp/k', '<span>{{val}}</span>']] : [[MAIN, src]], want: ['groups'] }))
   return C.compileBatch(jobs, 1)
 }
 
@@ -215,7 +229,7 @@ async function main() {
   }
   const rep = await C.runSharded(fileURLToPath(import.meta.url), ['--tier', thorough ? 'thorough' : 'quick', '--property', 'C11'], NODE22, ['--no-warnings', '--stack-size=4000', '--import', HOOKS])
   const res = rep.toResult('C11',
-    'model paths on the real runtime through update histories: for every template of a model-binding corpus (top-level chains, conditionals, dynamic indices; items of plain, keyed, conditional, member and nested loops; primitives) in both update modes, after every history of data-API transitions (length <= 1 quick / <= 2 thorough; field changes, exact paths, 8 list operations on three lists, outer / inner operations of nested lists) the model listener of every native element is invoked with a sentinel on a replica of its own: if the write changes the data, the binding of that element must deliver the sentinel. non-trivial = the write changed the data',
+    'model paths on the real runtime through update histories: for every template of a model-binding corpus (top-level chains, conditionals, dynamic indices; items of plain, keyed, conditional, member and nested loops; primitives) in both update modes, after every history of data-API transitions (length <= 1 quick / <= 2 thorough; field changes, exact paths, 8 list operations on three lists, outer / inner operations of nested lists) the model listener of every native element is invoked with a sentinel (a child component reports the change by its own setData) on a replica of its own: if the write changes the host data, the binding of that element must deliver the sentinel, in the running instance and in a fresh instance created with the data as it is then. non-trivial = the write changed the data',
     { templates: templates().length, history_depth: thorough ? 2 : 1, update_modes: ['default', 'virtualTree'] }, true,
     ['the real TypeScript runtime through the node 22 loader holds the listeners and performs the writes', 'a listener that does not change the data (no path, not assignable now) is accepted'], {})
   C.writeResult(C.argAfter('--out', C.WORK + '/C11.result.json'), res)
